@@ -84,7 +84,7 @@ from ._nocasedict import NocaseDict
 from ._cim_obj import CIMInstance, CIMInstanceName, CIMClass, CIMClassName, \
     CIMProperty, CIMMethod, CIMParameter, CIMQualifier, \
     CIMQualifierDeclaration
-from ._cim_types import CIMDateTime, type_from_name
+from ._cim_types import CIMDateTime, Char16, type_from_name
 from ._tupletree import xml_to_tupletree_sax
 from ._exceptions import CIMXMLParseError, CIMVersionError, DTDVersionError, \
     ProtocolVersionError
@@ -1163,7 +1163,12 @@ class TupleParser:
                             "value {1!A}", name(tup_tree), valuetype),
                     conn_id=self.conn_id)
 
-        return self.unpack_single_value(data, cimtype)
+        value = self.unpack_single_value(data, cimtype)
+        if cimtype == 'char16' and value is not None:
+            # Keybindings are the one place where char16 must stay
+            # distinguishable from string (see class Char16)
+            value = Char16(value)
+        return value
 
     #
     # Object definition elements
